@@ -209,8 +209,8 @@ theorem code_snapshot (cl : Gen.Code.cipherList) (ip : GoRT.Opaque "netip.Addr")
     ∃ snap, Gen.Code.cipherList.SnapshotForClientIP cl ip = some (cl, snap) ∧
       snap.map Tie.CipherList.absEntry = snapshot (cl.list.map Tie.CipherList.absEntry) (Tie.CipherList.absIP ip) ∧
       (snap.map Tie.CipherList.absEntry).Perm (cl.list.map Tie.CipherList.absEntry) := by
-  obtain ⟨snap, h1, h2⟩ := Tie.CipherList.snapshot_tie cl ip
-  exact ⟨snap, h1, h2, by rw [h2]; exact snapshot_perm _ _⟩
+  obtain ⟨h1, h2⟩ := Tie.CipherList.snapshot_tie cl ip
+  exact ⟨_, h1, h2, by rw [h2]; exact snapshot_perm _ _⟩
 
 /-- the translated `MarkUsedByClientIP` is the model's `markUsed` (move-to-front of a current element, no-op on the list for
     a stale one, client IP recorded) and `Update` replaces the list -/
@@ -243,5 +243,55 @@ theorem code_findEntry_is_model (ciphers : List (GoRT.ListElem Gen.Code.CipherEn
     (ciphers.find? (fun elt => valid elt.Value.CryptoKey.val)).map Tie.CipherList.absEntry =
       findEntry valid (ciphers.map Tie.CipherList.absEntry) :=
   Tie.CipherList.find_abs ciphers valid
+
+
+/-- **code_key_search_sound_and_complete**: the TCP key search as the code performs it — the translated `SnapshotForClientIP`
+    followed by the translated `findEntry` on that snapshot — for EVERY key list, client IP and usage history: it never panics
+    (given that the bytes read cover salt+2+tag of every configured key), it fails exactly when NO configured key opens the
+    header, and what it returns is an element of the configured list whose key opens the header, together with that element's
+    own entry. -/
+theorem code_key_search_sound_and_complete
+    (saltSize tagSize : GoRT.Opaque "shadowsocks.EncryptionKey" → Int)
+    (unpack : List UInt8 → List UInt8 → GoRT.Opaque "shadowsocks.EncryptionKey" → List UInt8 × Option String)
+    (firstBytes : List UInt8) (cl : Gen.Code.cipherList) (ip : GoRT.Opaque "netip.Addr") (l : GoRT.Opaque "slog.Logger")
+    (hfits : ∀ elt ∈ cl.list, 0 ≤ saltSize elt.Value.CryptoKey + 2 + tagSize elt.Value.CryptoKey ∧
+      saltSize elt.Value.CryptoKey + 2 + tagSize elt.Value.CryptoKey ≤ (firstBytes.length : Int)) :
+    ∃ snap r, Gen.Code.cipherList.SnapshotForClientIP cl ip = some (cl, snap) ∧
+      Gen.Code.findEntry saltSize tagSize unpack firstBytes snap l = some r ∧
+      (r = (none, none) ↔ ∀ elt ∈ cl.list, Tie.CipherList.opens saltSize tagSize unpack firstBytes elt.Value.CryptoKey = false) ∧
+      (∀ entry elt, r = (some entry, some elt) →
+        elt ∈ cl.list ∧ Tie.CipherList.opens saltSize tagSize unpack firstBytes elt.Value.CryptoKey = true ∧ entry = elt.Value) := by
+  have hs := (Tie.CipherList.snapshot_tie cl ip).1
+  have hfits' : ∀ elt ∈ Tie.CipherList.snapOf cl.list ip, 0 ≤ saltSize elt.Value.CryptoKey + 2 + tagSize elt.Value.CryptoKey ∧
+      saltSize elt.Value.CryptoKey + 2 + tagSize elt.Value.CryptoKey ≤ (firstBytes.length : Int) :=
+    fun elt h => hfits elt ((Tie.CipherList.mem_snapOf cl.list ip elt).1 h)
+  have hf := Tie.CipherList.findEntry_tie saltSize tagSize unpack firstBytes (Tie.CipherList.snapOf cl.list ip) l hfits'
+  refine ⟨_, _, hs, hf, ?_, ?_⟩
+  · cases hfind : (Tie.CipherList.snapOf cl.list ip).find? (fun elt => Tie.CipherList.opens saltSize tagSize unpack firstBytes elt.Value.CryptoKey) with
+    | none =>
+      simp only [true_iff]
+      intro elt helt
+      have := List.find?_eq_none.1 hfind elt ((Tie.CipherList.mem_snapOf cl.list ip elt).2 helt)
+      simpa using this
+    | some e =>
+      simp only [Prod.mk.injEq, reduceCtorEq, and_self, false_iff]
+      intro hall
+      have hm := List.mem_of_find?_eq_some hfind
+      have ho : Tie.CipherList.opens saltSize tagSize unpack firstBytes e.Value.CryptoKey = true := by
+        have := List.find?_some hfind
+        simpa using this
+      rw [hall e ((Tie.CipherList.mem_snapOf cl.list ip e).1 hm)] at ho
+      cases ho
+  · intro entry elt hr
+    cases hfind : (Tie.CipherList.snapOf cl.list ip).find? (fun elt => Tie.CipherList.opens saltSize tagSize unpack firstBytes elt.Value.CryptoKey) with
+    | none => simp [hfind] at hr
+    | some e =>
+      simp only [hfind, Prod.mk.injEq, Option.some.injEq] at hr
+      obtain ⟨h1, h2⟩ := hr
+      subst h2
+      have ho : Tie.CipherList.opens saltSize tagSize unpack firstBytes e.Value.CryptoKey = true := by
+        have := List.find?_some hfind
+        simpa using this
+      exact ⟨(Tie.CipherList.mem_snapOf cl.list ip e).1 (List.mem_of_find?_eq_some hfind), ho, h1.symm⟩
 
 end OutlineModel.Props.C01
